@@ -359,3 +359,21 @@ package j5schema
 //@   assert at return#3 kind.duration: typeis(result0, *ScalarSchema) && wireMessage(as(*ScalarSchema, result0).Proto)
 //@   assert at return#4 kind.date: typeis(result0, *ScalarSchema) && wireMessage(as(*ScalarSchema, result0).Proto)
 //@   assert at return#5 kind.decimal: typeis(result0, *ScalarSchema) && wireMessage(as(*ScalarSchema, result0).Proto)
+
+// ---- enum option lookup (C03) ------------------------------------------------------------------------
+// A name is accepted with or without the schema's prefix; the first option so named is returned, and
+// nil only when no option has that name. The options of a built schema are non-nil (established by
+// the builders: enumSchemaFromDesc#post.options, buildEnum): ASSUMED here, not an obligation of callers.
+//@ spec func optNamed(o *EnumOption, name string, prefix string) bool = hasPrefix(name, prefix) ? prefix + o.name == name : o.name == name
+//@ func (*EnumSchema).OptionByName
+//@   free requires s != nil && (forall i int {s.Options[i]} :: 0 <= i && i < len(s.Options) ==> s.Options[i] != nil)
+//@   ensures found: result != nil ==> optNamed(result, name, s.NamePrefix)
+//@   ensures member: result != nil ==> exists i int :: 0 <= i && i < len(s.Options) && s.Options[i] == result
+//@   ensures none: result == nil ==> forall i int {s.Options[i]} :: 0 <= i && i < len(s.Options) ==> !optNamed(s.Options[i], name, s.NamePrefix)
+//@   loop 0 invariant forall i int {s.Options[i]} :: 0 <= i && i < $iter ==> !optNamed(s.Options[i], name, s.NamePrefix)
+//@ func (*EnumSchema).OptionByNumber
+//@   free requires s != nil && (forall i int {s.Options[i]} :: 0 <= i && i < len(s.Options) ==> s.Options[i] != nil)
+//@   ensures found: result != nil ==> result.number == num
+//@   ensures member: result != nil ==> exists i int :: 0 <= i && i < len(s.Options) && s.Options[i] == result
+//@   ensures none: result == nil ==> forall i int {s.Options[i]} :: 0 <= i && i < len(s.Options) ==> s.Options[i].number != num
+//@   loop 0 invariant forall i int {s.Options[i]} :: 0 <= i && i < $iter ==> s.Options[i].number != num
